@@ -4,7 +4,9 @@
 //     M : advance the clock by dt ms, then HandleMsg() of the message; sendok=0 makes every SendMsg() of the list fail during this message
 //     Q : dump the list (also implicitly at the end)
 // t0 is the value of the 32-bit millisecond clock N2kMillis() when the list is constructed (the 64-bit clock runs at 2^32+t0, the
-// device list only reads the 32-bit one).
+// device list only reads the 32-bit one).  The node is created once (opened, address 25 claimed) and is only the sink of SendMsg();
+// every case gets a new tN2kDeviceList.  Built with the w64 flag set only: unsigned long is 64 bits in both flag sets and the list
+// reads nothing but N2kMillis().
 // Output: per op, separated by " ; ":
 //   M -> "u=<ReadResetIsListUpdated 0/1> req=<time>:<dest>:<requested pgn>,... | -"     (ISO requests (PGN 59904) the list put on the bus)
 //   Q -> "max=<MaxDevices> pend=<HasPendingRequests> cnt=<Count()> s<src>{...} ... byname <namehex>=<source|-> ..."
